@@ -258,6 +258,8 @@ def run_property(prop_id, tier, modname, level="other", explanation="", assumpti
                     continue
                 c, rr = rep
                 fullkey = f"{ob.name}:{key}"
+                if key in known and fullkey not in known:
+                    known[fullkey] = known[key]
                 if fullkey in known:
                     known_hits[fullkey] = rr["desc"]
                     R["classes"][key] = "known-finding"
@@ -365,7 +367,7 @@ def run_property(prop_id, tier, modname, level="other", explanation="", assumpti
     for k, d in sorted(known_hits.items()):
         print(f"KNOWN-FINDING: property={prop_id} {k} :: {known[k].get('what', '')} [{d[:120]}]")
     for k, f in known.items():
-        if k not in known_hits:
+        if k not in known_hits and not any(h.endswith(":" + k) for h in known_hits):
             print(f"note: listed known finding not re-derived in this tier: {k}")
     if errors:
         for n, e in errors[:5]:
